@@ -61,10 +61,16 @@ def to_sx(v):
     raise TypeError('no wire form for %r' % (v,))
 
 
-def call(f, *args):
+RICH_KEYS = {'ber.skip_tag', 'ber.decode_length', 'ber.read_tag', 'ber.skip_tag_length_contents', 'ber.detect_end_of_contents_tag', 'ber.decode_full_length'}
+
+
+def call(f, *args, rich=False):
     try:
         return to_sx(f(*args))
-    except Exception as e:                                   # the exception class is the observable
+    except Exception as e:                                   # the exception class (and, for the BER framing errors, its attributes) is the observable
+        if rich:
+            extra = [getattr(e, a) for a in ('offset', 'expected_length') if isinstance(getattr(e, a, None), int)]
+            return '(err %s%s)' % (type(e).__name__, ''.join(' %d' % x for x in extra))
         return '(err %s)' % type(e).__name__
 
 
@@ -81,16 +87,42 @@ TR_PREFIXES = {
     'C01': ['ber.encode_object_identifier_subidentifier', 'ber.decode_object_identifier_subidentifier', 'compiler.lowest_set_bit',
             'per.Encoder', 'per.Decoder', 'oer.Encoder', 'oer.Decoder'],
     'C08': ['per.Decoder', 'oer.Decoder'],
-    'C16': ['per.Decoder', 'oer.Decoder'],
+    'C16': ['per.Decoder', 'oer.Decoder', 'ber.skip_tag', 'ber.decode_length', 'ber.skip_tag_length_contents', 'ber.detect_end_of_contents_tag'],
+    'C04': ['ber.skip_tag', 'ber.decode_length', 'ber.detect_end_of_contents_tag'],
     'C03': ['ber.encode_length_definite', 'ber.encode_tag'],
     'C05': ['per.'],
     'C06': ['oer.'],
     'C09': ['c_uper.'],
     'C10': ['c_oer.'],
-    'C15': ['ber.encode_length_definite', 'ber.encode_tag'],
+    'C15': ['ber.encode_length_definite', 'ber.encode_tag', 'ber.skip_tag', 'ber.decode_length', 'ber.read_tag', 'ber.skip_tag_length_contents',
+            'ber.detect_end_of_contents_tag', 'ber.decode_full_length'],
 }
 
+def tlv_like(rng):
+    """octets shaped like BER identifier + length (+ contents), cut at arbitrary places"""
+    x = rng.random()
+    tag = bytes([rng.choice([0x30, 0x04, 0x02, 0x1f, 0x5f, 0x9f, 0xbf, 0x7f, rng.randrange(256)])])
+    if tag[0] & 0x1f == 0x1f:
+        tag += bytes(rng.choice([0x81, 0x80, 0xff]) for _ in range(rng.choice([0, 0, 1, 2, 5]))) + bytes([rng.choice([0x00, 0x1f, 0x7f, rng.randrange(128)])])
+    n = rng.choice([0, 1, 5, 127, 128, 129, 255, 256, 300])
+    ln = rng.choice([bytes([n]) if n < 128 else bytes([0x81, n & 0xff]), bytes([0x80]), bytes([0x82, n >> 8, n & 0xff]), bytes([0x83, 0, n >> 8, n & 0xff]),
+                     bytes([0x84, 0xff, 0xff, 0xff, 0xff]), bytes([0xff]) + bytes(3)])
+    body = bytes(rng.randrange(256) for _ in range(min(n, 40) if x < 0.5 else n))
+    d = tag + ln + body + octets(rng, rng.choice([0, 0, 2]))
+    if rng.random() < 0.5:
+        d = d[:rng.randint(0, len(d))]
+    if rng.random() < 0.1:
+        d = octets(rng)
+    return d
+
+
 FUNCTION_DOMAINS = {
+    'ber.skip_tag': lambda r: (lambda d: [d, r.randint(0, len(d) + 1)])(tlv_like(r)),
+    'ber.decode_length': lambda r: (lambda d: [d, r.randint(0, len(d) + 1)])(tlv_like(r)),
+    'ber.read_tag': lambda r: (lambda d: [d, r.randint(0, len(d) + 1)])(tlv_like(r)),
+    'ber.skip_tag_length_contents': lambda r: (lambda d: [d, r.choice([0, 0, 0, r.randint(0, len(d) + 1)])])(tlv_like(r)),
+    'ber.detect_end_of_contents_tag': lambda r: (lambda d: [d, r.randint(0, len(d) + 1)])(r.choice([b'\x00\x00', b'\x00', b'', b'\x00\x01', octets(r), b'\x05\x00\x00\x00'])),
+    'ber.decode_full_length': lambda r: [tlv_like(r)],
     'ber.encode_length_definite': lambda r: [nat(r)],
     'ber.encode_tag': lambda r: [nat(r), r.choice([0, 0x20, 0x40, 0x60, 0x80, 0xa0, 0xc0, 0xe0])],
     'ber.encode_object_identifier_subidentifier': lambda r: [nat(r)],
@@ -229,7 +261,7 @@ def run(sink, prefixes, seed, n_fn=300, n_seq=60, seq_len=25):
         for i in range(n_fn):
             args = dom(rng)
             requests.append(key + '\t' + '\t'.join(to_sx(a) for a in args))
-            expected.append(call(f, *args))
+            expected.append(call(f, *args, rich=key in RICH_KEYS))
             labels.append((key, args))
     if any('per.Encoder'.startswith(p) or p.startswith('per.Encoder') for p in prefixes):
         per = importlib.import_module(MODULES['per'])
